@@ -217,8 +217,23 @@ def checked_run(model, plus, specs, ops, checker):
     verdict = None
     cur = 0
     enc = []
+    run.last = {}
     for k, op in enumerate(ops):
+        run.cur = cur
+        if callable(op):          # late-bound op (e.g. "load what was saved earlier in this run")
+            op = ops[k] = op(run)
         name = op[0]
+        if name == "savejson":    # harness-only: JSON text is CPython's json module, not modelled; the state is untouched
+            o = run.objs[cur]
+            path = os.path.join(scratch_dir(), "dhcp.json")
+            o.save_dhcp(path)
+            run.last["savejson"] = [(int(a), b) for a, b in json.load(open(path)).items()]
+            run.last["savejson_table"] = list(o.dhcp_dict.items())
+            if verdict is None and hasattr(checker, "savejson"):
+                v = checker.savejson(run)
+                if v:
+                    verdict = (v[0], v[1], k)
+            continue
         enc += encode(op)
         if name == "oracle":
             run.world.oracle(op[1])
@@ -251,6 +266,7 @@ def checked_run(model, plus, specs, ops, checker):
             continue
         log.clear()
         res = apply_op(obj, op)
+        run.last[name] = res
         snapi = run.world.snap()
         out += [-1] + res + [-5, run.world.now_ns] + snapi + [-6] + R.dump_obj(obj._rf24) + [-7] + dump_node(obj)
         snaps = W.parse_snaps(snapi, nr)[0]
@@ -279,6 +295,7 @@ def jops(ops):
 
 
 def check_case(rep, model, plus, specs, ops, checker, domain, nontrivial=True):
+    ops = list(ops)
     iout, mout, verdict = checked_run(model, plus, specs, ops, checker)
     case = {"plus": plus, "objects": [list(s) for s in specs], "ops": jops(ops)}
     rep.seen(case, nontrivial=nontrivial)
